@@ -1,1 +1,47 @@
-From GV Require Import Pool.Model Pool.Observe Pool.Monitors.
+From GV Require Import Pool.Model Pool.Observe Pool.Monitors Pool.InvC20.
+
+(* C20: after every operation, every connection of the pool and every replacement
+   connection of a refresh in flight has been given the latest resolved address
+   list and asked to connect since; a resolver error changes nothing; only a
+   resolver update changes the address list.  For every history (legal or not)
+   and every oracle; no guard. *)
+Theorem C20_holds : forall raw ops,
+  monitor P20 raw (observe init_bal) (run raw init_bal ops) = true.
+Proof. exact C20_holds_proof. Qed.
+Print Assumptions C20_holds.
+
+(* non-vacuity, and regression for the defect this proof found: a resolver update
+   arriving while the pool is empty but a refresh is in flight (the replacement
+   connection 1 must be given the new addresses: OUpdAddr 1 2) *)
+Example c20_history :
+  let raw := Some (mkConfig 1 4 100 false 1 1 false []) in
+  let ops := [(OpResolver 1 CfgVal, []); (OpConnState 0 Ready, []);
+              (OpPick 0 0 false [] (Some 5%Z) false, []); (OpAdvance 2000000, []);
+              (OpDone 0 DDeadlineClient [], []); (OpConnState 0 Shutdown, []);
+              (OpResolver 2 CfgVal, []); (OpResolverErr, []); (OpConnState 1 Ready, []);
+              (OpResolver 3 CfgVal, [])] in
+  map ev_out (run raw init_bal ops) =
+    [[ONewSC 0 1; OConnect 0; OUpdAddr 0 1; OConnect 0]; [OUpdateState Ready (PSnap [0%nat])]; []; [];
+     [ONewSC 1 1; OConnect 1]; [OUpdateState TransientFailure (PErr true)];
+     [ONewSC 2 2; OConnect 2; OUpdAddr 1 2; OConnect 1]; [];
+     [ORemove 0; OUpdateState Ready (PSnap [0%nat])];
+     [OUpdAddr 2 3; OConnect 2; OUpdAddr 1 3; OConnect 1]] /\
+  monitor P20 raw (observe init_bal) (run raw init_bal ops) = true.
+Proof. vm_compute. split; reflexivity. Qed.
+
+(* the monitor rejects a pool connection left on a stale address list *)
+Example c20_bad_stale_address :
+  let o1 := mkObs true 1 0 0 0 Idle [] [] [(0%N, Idle)] [(0%N, 0%nat)] [mkSlot 0 0 0 0 0 false 0]
+                  4294967295 [] false (PErr false) 0 0 true in
+  let o2 := mkObs true 2 0 0 0 Idle [] [] [(0%N, Idle)] [(0%N, 0%nat)] [mkSlot 0 0 0 0 0 false 0]
+                  4294967295 [] false (PErr false) 0 0 true in
+  mon_from P20 None (mkMstate [] None [] [] [(0%N, 1%N)] [(0%N, true)] false (Some None) 0) o1
+    [mkEvent (OpResolver 2 CfgVal) [] RNone [] (Some o2)] = false.
+Proof. vm_compute. reflexivity. Qed.
+
+(* ... and a resolver error that changes the state *)
+Example c20_bad_resolver_error :
+  let o1 := mkObs true 1 0 0 0 Idle [] [] [] [] [] 4294967295 [] false (PErr false) 0 0 true in
+  let o2 := mkObs true 1 0 0 0 Idle [] [] [] [] [] 4294967295 [] false (PErr false) 0 5 true in
+  mon_from P20 None ms_init o1 [mkEvent OpResolverErr [] RNone [] (Some o2)] = false.
+Proof. vm_compute. reflexivity. Qed.
